@@ -744,6 +744,124 @@ func extractC14(c *ctxT) {
 	sb.WriteString("def stakingValidateChecks : List String := " + q(checks) + "\n\n")
 	c.facts["C14.stakingValidateChecks"] = checks
 
+	// ---- genesis export / import of the migrate module ----------------------------------------------------
+	// IterateMigrateRecords: the value flag named by the `continue` branch of its loop; ExportGenesis: where the exported
+	// From / To come from (record key / record value), what the callback does with a record and what it returns;
+	// InitGenesis: the keeper calls made per exported record, arguments traced back to the record's fields
+	expSkip := "none"
+	var expShape []string
+	if fd := c.findFunc(c14Keeper, "Keeper", "IterateMigrateRecords"); fd != nil && fd.Body != nil {
+		ast.Inspect(fd.Body, func(n ast.Node) bool {
+			switch x := n.(type) {
+			case *ast.IfStmt:
+				if len(x.Body.List) == 1 {
+					if br, ok := x.Body.List[0].(*ast.BranchStmt); ok && br.Tok == token.CONTINUE {
+						cond := c.src(x.Cond)
+						switch {
+						case strings.HasPrefix(cond, "bytes.Equal(iter.Value()[:1], ") && strings.Contains(cond, "ValuePrefixMigrateToFlag"):
+							expSkip = "ValuePrefixMigrateToFlag"
+						case strings.HasPrefix(cond, "bytes.Equal(iter.Value()[:1], ") && strings.Contains(cond, "ValuePrefixMigrateFromFlag"):
+							expSkip = "ValuePrefixMigrateFromFlag"
+						default:
+							expSkip = "?" + cond
+						}
+					}
+				}
+			case *ast.CompositeLit:
+				if strings.HasSuffix(c.src(x.Type), "MigrateRecord") {
+					for _, el := range x.Elts {
+						if kv, ok := el.(*ast.KeyValueExpr); ok {
+							k, v := c.src(kv.Key), c.src(kv.Value)
+							if k != "From" && k != "To" {
+								continue
+							}
+							switch {
+							case strings.Contains(v, "iter.Key()[1:]"):
+								expShape = append(expShape, k+"=key")
+							case strings.Contains(v, "iter.Value()[1 : addressLen+1]") || strings.Contains(v, "iter.Value()[1:addressLen+1]"):
+								expShape = append(expShape, k+"=value")
+							default:
+								expShape = append(expShape, k+"=?"+v)
+							}
+						}
+					}
+				}
+			}
+			return true
+		})
+	}
+	if fd := c.findFunc(c14Keeper, "Keeper", "ExportGenesis"); fd != nil && fd.Body != nil {
+		ast.Inspect(fd.Body, func(n ast.Node) bool {
+			fl, ok := n.(*ast.FuncLit)
+			if !ok {
+				return true
+			}
+			for _, st := range fl.Body.List {
+				switch x := st.(type) {
+				case *ast.AssignStmt:
+					if strings.Contains(c.src(x), "MigrateRecords = append(") && strings.HasSuffix(strings.TrimSpace(c.src(x)), ", record)") {
+						expShape = append(expShape, "append")
+					} else {
+						expShape = append(expShape, "?"+c.src(x))
+					}
+				case *ast.ReturnStmt:
+					expShape = append(expShape, "return "+c.src(x.Results[0]))
+				default:
+					expShape = append(expShape, "?"+c.src(st))
+				}
+			}
+			return false
+		})
+	}
+	var impCalls []string
+	if fd := c.findFunc(c14Keeper, "Keeper", "InitGenesis"); fd != nil && fd.Body != nil {
+		ast.Inspect(fd.Body, func(n ast.Node) bool {
+			rs, ok := n.(*ast.RangeStmt)
+			if !ok || !strings.HasSuffix(c.src(rs.X), ".MigrateRecords") {
+				return true
+			}
+			vars := map[string]string{}
+			trace := func(e string) string {
+				if v, ok := vars[e]; ok {
+					return v
+				}
+				for _, f := range []string{"record.From", "record.To"} {
+					if strings.Contains(e, f) {
+						return f
+					}
+				}
+				return "?" + e
+			}
+			ast.Inspect(rs.Body, func(m ast.Node) bool {
+				switch y := m.(type) {
+				case *ast.AssignStmt:
+					if len(y.Lhs) >= 1 && len(y.Rhs) == 1 {
+						if id, ok := y.Lhs[0].(*ast.Ident); ok && id.Name != "err" && id.Name != "_" {
+							vars[id.Name] = trace(c.src(y.Rhs[0]))
+						}
+					}
+				case *ast.CallExpr:
+					if se, ok := y.Fun.(*ast.SelectorExpr); ok && c.src(se.X) == "k" {
+						var as []string
+						for _, a := range y.Args[1:] {
+							as = append(as, trace(c.src(a)))
+						}
+						impCalls = append(impCalls, se.Sel.Name+"("+strings.Join(as, ",")+")")
+					}
+				}
+				return true
+			})
+			return false
+		})
+	}
+	sb.WriteString("/-- genesis: the value flag whose records `IterateMigrateRecords` skips; where `From` / `To` of an exported record come from and what\n`ExportGenesis`' callback does; the keeper calls `InitGenesis` makes per record (arguments traced to the record's fields) -/\n")
+	sb.WriteString("def genesisExportSkip : String := " + leanStr(expSkip) + "\n")
+	sb.WriteString("def genesisExportShape : List String := " + q(expShape) + "\n")
+	sb.WriteString("def genesisImportCalls : List String := " + q(impCalls) + "\n\n")
+	c.facts["C14.genesisExportSkip"] = expSkip
+	c.facts["C14.genesisExportShape"] = expShape
+	c.facts["C14.genesisImportCalls"] = impCalls
+
 	sb.WriteString("end FxVerif.Gen.C14\n")
 	c.write("C14.lean", sb.String())
 }
